@@ -7,6 +7,8 @@ BASELINE = "cd /repo && /venv/bin/python -m pytest -ra -q -p no:cacheprovider --
 
 CORE_NOTE = 'Trusted: Lean kernel, standard axioms (SplitRange uses Mathlib linarith); the hand-written Core model is tied to the code by the sampled correspondence (state after every step incl. raw GLPK problem read with swiglpk). Proved for the operations in Core.Op (bounds setters, knock-outs, add/subtract_metabolites on metabolites of the model, objective coefficient / dict, direction, enter/exit); the other public operations (add/remove reactions, metabolites, boundaries, genes, rule setter, *=, copy, ...) are exercised by the correspondence re-sync and the direct oracle only and are listed per run as oracle_only_ops. Float rounding is not modelled (dyadic inputs).'
 
+LP_NOTE = 'Trusted: Lean kernel, standard axioms (LP lemmas use Mathlib linarith/nlinarith/ring); GLPK/optlang are external and are compared per generated instance with verdicts and optima certified by the proved checker (tolerance 1e-6); harness/exact_lp.py is untrusted (its certificates pass through LPM.checkOpt/checkInfeas/checkUnbdd); the oracle builds the net-flux LP from the model description independently of cobrapy. Small models (<= 11 reactions), integer/dyadic data.'
+
 CLAIMED = {
     "C15": dict(
         engine="dictlist",
@@ -68,6 +70,16 @@ CLAIMED = {
              "correspondence and an independent truth-table oracle over bounds, flags and GLPK column bounds.",
         note=CORE_NOTE, technique="Lean 4 proof over the Core model + truth-table oracle",
         design="DESIGN.md section 5, C07"),
+    "C04": dict(
+        engine="lp",
+        text="Lean 4: soundness of the LP certificate checker for all LPs and certificates (optimal_certificate_sound: accepted (x, y) => x is a true "
+             "optimum; infeasible_certificate_sound (Farkas); unbounded_certificate_sound; verdicts exclusive; optimal value unique) and the decision "
+             "logic status -> value / error value / exception with the table regenerated from exceptions.py and util/solver.py. GLPK is an external "
+             "parameter: on every generated instance cobrapy's status, objective value, fluxes (steady state, bounds), shadow prices (dual sign "
+             "conditions), reduced costs (= c - S^T y), accessors, error value / exception class and Solution snapshot behaviour are compared with the "
+             "certified truth, for glpk and glpk_exact.",
+        note=LP_NOTE, technique="Lean 4 proof (verified certificate checker, weak duality / Farkas) + certified differential testing of GLPK answers",
+        design="DESIGN.md section 5, C04"),
 }
 
 PENDING_REASON = "check under construction in this session (see DESIGN.md section 9 build order); not claimed until its Lean model, theorems and correspondence exist"
@@ -106,6 +118,8 @@ def main():
              "kind_free_text": "Lean model DLM + theorems (lean/CobraModel/{Model,Lemmas,Props}) and op-sequence correspondence against cobra.core.DictList"},
             {"name": "core", "path": "harness/core_engine.py", "serves_properties": ["C01", "C02", "C03", "C07"],
              "kind_free_text": "Lean Core model (content + solver + undo stack as functions over ids), theorems in Props/C01,C02,C03,C07, traces on the real model with raw GLPK read-out"},
+            {"name": "lp", "path": "harness/lpcert.py", "serves_properties": ["C04"],
+             "kind_free_text": "Lean LP model + proved certificate checker (Model/LP.lean, Lemmas/LP.lean), untrusted exact simplex, constructive FBA instance generator"},
             {"name": "gpr", "path": "harness/c08.py", "serves_properties": ["C08"],
              "kind_free_text": "Lean model GPRM (rule trees, parser, remover) + generated escape tables + correspondence against cobra.core.gene.GPR"},
         ],
